@@ -255,8 +255,8 @@ let run_traces (path : string) =
            let tr = List.rev !evs in
            let c = !cfg in
            let fails =
-             mon_wire c tr @ mon_C01 tr @ mon_C02 tr @ mon_C03 tr @ mon_C04 c tr @ mon_C07 c tr @ mon_C08 tr @
-             mon_C10 c tr @ mon_C14 c tr @ mon_C16 c tr @ mon_C17 c tr @ mon_C18 tr @ mon_panic tr in
+             mon_wire c tr @ mon_C01 c tr @ mon_C02 c tr @ mon_C03 c tr @ mon_C04 c tr @ mon_C07 c tr @ mon_C08 tr @
+             mon_C10 c tr @ mon_C14 c tr @ mon_C16 c tr @ mon_C17 c tr @ mon_C18 tr @ mon_panic tr @ mon_tables c tr @ mon_ctable c tr @ mon_negotiate c tr in
            let status = (match split ' ' rest with _ :: st :: _ -> st | _ -> "?") in
            Printf.printf "T %s %s %d %s\n" !name status !nev (String.concat " " (List.map string_of_fail fails))
          | _ -> ()
